@@ -109,6 +109,9 @@ Proof.
     + destruct (g a); simpl; lia.
 Qed.
 
+Lemma filter_length_bound {A} (f : A -> bool) l : length (filter f l) <= length l.
+Proof. induction l as [|a l IH]; simpl; [lia|]. destruct (f a); simpl; lia. Qed.
+
 (* ------------------------------------------------------------------ the depth-first lemma *)
 Section Dfs.
   Variable tls_recurses : bool.
@@ -380,6 +383,178 @@ Section Sweep.
   Qed.
 End Sweep.
 
+(* ------------------------------------------------------------------ fuel adequacy, no crash *)
+Section Total.
+  Variable h : heap.
+  Variable rg : registry.
+  Variables (minptr maxptr : N).
+  Hypothesis Hrange : range_ok rg minptr maxptr.
+  Variable order : list word.
+  Hypothesis Horder : order_ok rg order.
+  Hypothesis Hreg_heap : forall p, registered rg p = true -> nget p h <> None.
+  Hypothesis Hitems : forall p c, nget p h = Some c -> items_ok h c.
+  Variable rk : word -> nat.
+  Hypothesis Hrk_bound : forall p, rk p <= nraw h rg.
+  Hypothesis Hrk_dec : forall p c q, is_raw h rg p = true -> nget p h = Some c -> In q (item_ptrs c) ->
+                                     is_raw h rg q = true -> rk q < rk p.
+
+  Notation R := (nraw h rg).
+  Notation W := (nraw h rg + 2).
+  Definition unmarked_count (m : marks) : nat := length (filter (fun p => negb (marked m p)) order).
+  Notation U := unmarked_count.
+
+  Definition rawbound (c : contents) (r : nat) : Prop :=
+    forall q, In q (item_ptrs c) -> is_raw h rg q = true -> rk q < r.
+
+  Definition total (rec : contents -> marks -> outcome marks) (b : nat) : Prop :=
+    forall c m r, items_ok h c -> rawbound c r -> U m * W + r <= b -> exists m', rec c m = Ok m'.
+
+  Lemma total_mono rec b b' : total rec b -> b' <= b -> total rec b'.
+  Proof. intros T Hle c m r H1 H2 H3. apply (T c m r H1 H2). lia. Qed.
+
+  Lemma U_sub m m' : sub m m' -> U m' <= U m.
+  Proof.
+    intros S. apply filter_length_le. intros x _ Hx. rewrite negb_true_iff in *.
+    destruct (marked m x) eqn:E; [|reflexivity]. rewrite (S x E) in Hx. discriminate.
+  Qed.
+
+  Lemma U_le_order m : U m <= length order.
+  Proof. apply filter_length_bound. Qed.
+
+  Lemma U_setmark w m : registered rg w = true -> marked m w = false -> U (setmark w m) < U m.
+  Proof.
+    intros Hw Hm. apply filter_length_lt with (w := w).
+    - intros x _ Hx. rewrite negb_true_iff in *.
+      destruct (marked m x) eqn:E; [|reflexivity]. rewrite (marked_setmark_mono _ _ w E) in Hx. discriminate.
+    - destruct Horder as [_ Hin]. apply Hin. exact Hw.
+    - rewrite Hm. reflexivity.
+    - rewrite marked_setmark_same; [reflexivity|]. eapply registered_nonzero; eauto.
+  Qed.
+
+  Lemma rawbound_heap c : rawbound c (R + 1).
+  Proof. intros q _ _. pose proof (Hrk_bound q). lia. Qed.
+
+  Lemma descend_reg_total rec b' p m :
+    total rec b' -> U m * W <= b' + 1 -> registered rg p = true -> marked m p = false ->
+    exists m', descend h rec p (setmark p m) = Ok m'.
+  Proof.
+    intros T Hb Hp Hm. unfold descend. destruct (nget p h) as [c|] eqn:Hc; [|exfalso; eapply Hreg_heap; eauto].
+    apply (T c (setmark p m) (R + 1)).
+    - eapply Hitems; eauto.
+    - apply rawbound_heap.
+    - pose proof (U_setmark p m Hp Hm). nia.
+  Qed.
+
+  Lemma fold_o_total {A} (f : A -> marks -> outcome marks) (l : list A) (b r : nat) :
+    (forall a m, In a l -> U m * W + r <= b -> exists m', f a m = Ok m') ->
+    (forall a m m', f a m = Ok m' -> sub m m') ->
+    forall m, U m * W + r <= b -> exists m', fold_o f l m = Ok m'.
+  Proof.
+    intros Hf Hs. induction l as [|a l IH]; intros m Hb.
+    - exists m. reflexivity.
+    - rewrite fold_o_cons. destruct (Hf a m (or_introl eq_refl) Hb) as [m1 H1]. rewrite H1. cbn [bind].
+      apply IH.
+      + intros a0 m0 Ha0. apply Hf. simpl. auto.
+      + pose proof (U_sub _ _ (Hs _ _ _ H1)). nia.
+  Qed.
+
+  Section Level.
+    Variable rec : contents -> marks -> outcome marks.
+    Hypothesis Hrec : rec_ok h rg rec.
+    Variable b : nat.
+    Hypothesis Hb : forall b', b' < b -> total rec b'.
+
+    Lemma mark_item_total w m r :
+      U m * W + r <= b -> exists m', mark_item h rg minptr maxptr rec w m = Ok m'.
+    Proof.
+      intros Hle. unfold mark_item. destruct (prefilter minptr maxptr w); [|eauto].
+      destruct (registered rg w) eqn:Hw; [|eauto].
+      destruct (marked m w) eqn:Hm; [eauto|].
+      pose proof (U_setmark w m Hw Hm) as HU.
+      apply descend_reg_total with (b' := b - 1); auto.
+      - apply Hb. nia.
+      - nia.
+    Qed.
+
+    Lemma mark_and_recurse_total p m r :
+      nget p h <> None -> (is_raw h rg p = true -> rk p < r) -> U m * W + r <= b ->
+      exists m', mark_and_recurse true h rg minptr maxptr rec p m = Ok m'.
+    Proof.
+      intros Hp Hraw Hle. unfold mark_and_recurse. destruct (registered rg p) eqn:Hr.
+      - eapply mark_item_total; eauto.
+      - unfold descend. destruct (nget p h) as [c|] eqn:Hc; [|congruence].
+        assert (Hisraw : is_raw h rg p = true) by (unfold is_raw; rewrite Hc, Hr; reflexivity).
+        specialize (Hraw Hisraw).
+        refine (Hb (U m * W + rk p) _ c m (rk p) _ _ _); [lia| | |lia].
+        + eapply Hitems; eauto.
+        + intros q Hq Hqr. eapply Hrk_dec; eauto.
+    Qed.
+
+    Lemma trace_with_total : total (trace_with true h rg minptr maxptr rec) b.
+    Proof.
+      intros c. induction c as [ws|es IH|ps|] using contents_ind'; intros m r Hok Hrb Hle; cbn [trace_with].
+      - apply fold_o_total with (b := b) (r := r); auto.
+        + intros a m0 _ H0. eapply mark_item_total; eauto.
+        + intros a m0 m0' H0. eapply mark_item_ok; eauto.
+      - apply fold_o_total with (b := b) (r := r); auto.
+        + intros a m0 Ha H0. rewrite Forall_forall in IH. apply (IH a Ha m0 r); auto.
+          * intros p Hp. apply Hok. simpl. apply in_flat_map. eauto.
+          * intros q Hq. apply Hrb. simpl. apply in_flat_map. eauto.
+        + intros a m0 m0' H0. eapply trace_with_ok; eauto.
+      - apply fold_o_total with (b := b) (r := r); auto.
+        + intros a m0 Ha H0. apply mark_and_recurse_total with (r := r); auto.
+        + intros a m0 m0' H0. eapply mark_and_recurse_ok; eauto.
+      - eauto.
+    Qed.
+  End Level.
+
+  Lemma trace_total : forall n, total (trace true h rg minptr maxptr (S n)) n.
+  Proof.
+    induction n as [|n IH]; cbn [trace].
+    - apply trace_with_total.
+      + intros c m m' H. discriminate.
+      + intros b' Hlt. lia.
+    - apply trace_with_total.
+      + apply (trace_ok h rg minptr maxptr Hrange (S n)).
+      + intros b' Hlt. eapply total_mono; [exact IH|lia].
+  Qed.
+
+  Lemma mark_total tls stack :
+    (forall e, In e tls -> items_ok h e) ->
+    exists m', mark true true h rg minptr maxptr (fuel_of h rg order) order tls stack nempty = Ok m'.
+  Proof.
+    intros Htls. unfold mark. destruct order as [|o0 ord'] eqn:Eo; [eauto|]. rewrite <- Eo in *. clear Eo o0 ord'.
+    unfold fuel_of.
+    assert (Hn : exists n, (length order + 1) * W = S n) by (exists ((length order + 1) * W - 1); nia).
+    destruct Hn as [n Hn]. rewrite Hn.
+    set (rec := trace true h rg minptr maxptr (S n)).
+    assert (Hrec : rec_ok h rg rec) by (apply trace_ok; assumption).
+    assert (Trec : total rec n) by (apply trace_total).
+    assert (Tup : total (trace_with true h rg minptr maxptr rec) (S n)).
+    { change (trace_with true h rg minptr maxptr rec) with (trace true h rg minptr maxptr (S (S n))). apply trace_total. }
+    assert (HUb : forall m, U m * W <= n + 1) by (intros m; pose proof (U_le_order m); nia).
+    (* TLS pass *)
+    destruct (fold_o_total (trace_with true h rg minptr maxptr rec) tls (S n) (R + 1)) with (m := @nempty unit) as [m1 H1].
+    - intros a m Ha Hle. apply (Tup a m (R + 1)); auto. apply rawbound_heap.
+    - intros a m m' H0. eapply trace_with_ok; eauto.
+    - pose proof (U_le_order nempty). nia.
+    - rewrite H1. cbn [bind].
+      destruct (fold_o_total (root_step h rg rec) order (S n) 0) with (m := m1) as [m2 H2].
+      + intros a m _ _. unfold root_step. destruct (is_root rg a) eqn:Hr; simpl; [|eauto].
+        destruct (marked m a) eqn:Hm; simpl; [eauto|].
+        eapply descend_reg_total; eauto. apply is_root_registered; assumption.
+      + intros a m m' H0. eapply root_step_ok; eauto.
+      + pose proof (U_le_order m1). nia.
+      + rewrite H2. cbn [bind].
+        apply fold_o_total with (b := S n) (r := 0).
+        * intros a m _ _. unfold mark_item. destruct (prefilter minptr maxptr a); [|eauto].
+          destruct (registered rg a) eqn:Hr; [|eauto]. destruct (marked m a) eqn:Hm; [eauto|].
+          eapply descend_reg_total; eauto.
+        * intros a m m' H0. eapply mark_item_ok; eauto.
+        * pose proof (U_le_order m2). nia.
+  Qed.
+End Total.
+
 (* ------------------------------------------------------------------ pre-repair variants *)
 
 (* D16: the TLS table is handed GC_Mark_Item: an object reachable only from a TLS value is
@@ -438,3 +613,228 @@ Qed.
 Lemma d17_mark_terminates_post :
   exists m, mark true true d17_heap d17_reg 8%N 8%N 3 [8%N] [] [8%N] nempty = Ok m /\ marked m 8%N = true.
 Proof. eexists. split; vm_compute; reflexivity. Qed.
+
+(* ------------------------------------------------------------------ the theorems *)
+Theorem mark_complete_thm : forall h rg minptr maxptr order tls stack fuel m',
+  range_ok rg minptr maxptr -> order_ok rg order ->
+  mark true true h rg minptr maxptr fuel order tls stack nempty = Ok m' ->
+  forall q, registered rg q = true -> reach h rg tls stack q -> marked m' q = true.
+Proof. intros. eapply mark_complete_lemma; eauto. Qed.
+
+Theorem mark_fuel_adequate_thm : forall h rg minptr maxptr order tls stack,
+  range_ok rg minptr maxptr -> order_ok rg order -> wf h rg tls -> raw_wf h rg ->
+  exists m', mark true true h rg minptr maxptr (fuel_of h rg order) order tls stack nempty = Ok m'.
+Proof.
+  intros h rg minptr maxptr order tls stack Hr Ho [W1 W2 W3] (rk & B & D).
+  eapply mark_total; eauto.
+Qed.
+
+Theorem sweep_frees_only_unmarked_nonroot_thm : forall rg order m rg' fin,
+  sweep rg order m = (rg', fin) ->
+  (forall p, In p fin <-> In p order /\ registered rg p = true /\ is_root rg p = false /\ marked m p = false) /\
+  (forall p, registered rg' p = true <-> registered rg p = true /\ ~ In p fin) /\
+  (NoDup order -> NoDup fin).
+Proof. exact sweep_spec. Qed.
+
+Theorem collect_safe_thm : forall h rg minptr maxptr order tls stack,
+  range_ok rg minptr maxptr -> order_ok rg order -> wf h rg tls -> raw_wf h rg ->
+  exists rg' fin,
+    collect true true h rg minptr maxptr (fuel_of h rg order) order tls stack = Ok (rg', fin) /\
+    (forall p, registered rg p = true -> reach h rg tls stack p -> ~ In p fin /\ registered rg' p = true) /\
+    (forall p, is_root rg p = true -> ~ In p fin /\ registered rg' p = true) /\
+    (forall p, In p fin -> registered rg p = true /\ is_root rg p = false) /\
+    NoDup fin.
+Proof.
+  intros h rg minptr maxptr order tls stack Hr Ho Hw Hraw.
+  destruct (mark_fuel_adequate_thm h rg minptr maxptr order tls stack Hr Ho Hw Hraw) as [m' Hm].
+  unfold collect. rewrite Hm. cbn [bind].
+  destruct (sweep rg order m') as [rg' fin] eqn:Hs. exists rg', fin. split; [reflexivity|].
+  destruct (sweep_spec rg order m' rg' fin Hs) as (F & K & N).
+  split; [|split; [|split]].
+  - intros p Hp Hreach.
+    assert (Hmk : marked m' p = true) by (eapply mark_complete_thm; eauto).
+    assert (Hn : ~ In p fin) by (intros Hin; apply F in Hin; destruct Hin as (_ & _ & _ & Hu); congruence).
+    split; [exact Hn|]. apply K. auto.
+  - intros p Hp.
+    assert (Hn : ~ In p fin) by (intros Hin; apply F in Hin; destruct Hin as (_ & _ & Hroot & _); congruence).
+    split; [exact Hn|]. apply K. split; [apply is_root_registered; assumption|exact Hn].
+  - intros p Hin. apply F in Hin. tauto.
+  - apply N. apply Ho.
+Qed.
+
+(* ------------------------------------------------------------------ the excluded case diverges *)
+(* a registered Tuple at w8 whose item is the RAW Tuple at w16 that contains itself *)
+Definition w16 : word := 16%N.
+Definition rawcyc_heap : heap := nset w16 (Items [w16]) (nset w8 (Items [w16]) nempty).
+Definition rawcyc_reg : registry := nset w8 false nempty.
+
+Lemma rawcyc_trace_diverges : forall fuel m,
+  trace true rawcyc_heap rawcyc_reg w8 w8 fuel (Items [w16]) m = OutOfFuel.
+Proof.
+  induction fuel as [|f IH]; intros m; [reflexivity|].
+  cbn [trace trace_with fold_o]. unfold mark_and_recurse at 1.
+  replace (registered rawcyc_reg w16) with false by reflexivity.
+  unfold descend at 1. replace (nget w16 rawcyc_heap) with (Some (Items [w16])) by reflexivity.
+  rewrite IH. reflexivity.
+Qed.
+
+Lemma rawcyc_mark_diverges : forall fuel,
+  mark true true rawcyc_heap rawcyc_reg w8 w8 fuel [w8] [] [w8] nempty = OutOfFuel.
+Proof.
+  intros fuel. unfold mark. cbn [fold_o bind].
+  unfold root_step. replace (is_root rawcyc_reg w8) with false by reflexivity. cbn [andb bind fold_o].
+  unfold mark_item. replace (prefilter w8 w8 w8) with true by reflexivity.
+  replace (registered rawcyc_reg w8) with true by reflexivity.
+  replace (marked nempty w8) with false by reflexivity.
+  unfold descend. replace (nget w8 rawcyc_heap) with (Some (Items [w16])) by reflexivity.
+  rewrite rawcyc_trace_diverges. reflexivity.
+Qed.
+
+Lemma rawcyc_not_raw_wf : ~ raw_wf rawcyc_heap rawcyc_reg.
+Proof.
+  intros (rk & _ & D).
+  assert (H : rk w16 < rk w16).
+  { apply (D w16 (Items [w16]) w16); try reflexivity. simpl. auto. }
+  lia.
+Qed.
+
+(* ------------------------------------------------------------------ executable checks of the hypotheses
+   (used for the non-vacuity example and, extracted, on every generated case) *)
+Definition is_some {A} (o : option A) : bool := match o with Some _ => true | None => false end.
+
+Definition items_ok_b (h : heap) (c : contents) : bool :=
+  forallb (fun p => is_some (nget p h)) (item_ptrs c).
+
+Definition wf_b (h : heap) (rg : registry) (tls : list contents) : bool :=
+  forallb (fun kv => is_some (nget (Npos (fst kv)) h)) (PM.elements rg) &&
+  forallb (fun kv => items_ok_b h (snd kv)) (PM.elements h) &&
+  forallb (items_ok_b h) tls.
+
+Definition rawdec_b (h : heap) (rg : registry) (rk : word -> nat) : bool :=
+  forallb (fun kv => let p := Npos (fst kv) in
+                     negb (is_raw h rg p) ||
+                     forallb (fun q => negb (is_raw h rg q) || (rk q <? rk p)) (item_ptrs (snd kv)))
+          (PM.elements h).
+
+Definition range_b (rg : registry) (minptr maxptr : N) : bool :=
+  forallb (fun kv => let p := Npos (fst kv) in ((p mod 8 =? 0) && (minptr <=? p) && (p <=? maxptr))%N)
+          (PM.elements rg).
+
+Fixpoint nodup_b (l : list word) : bool :=
+  match l with [] => true | a :: r => negb (existsb (N.eqb a) r) && nodup_b r end.
+
+Definition order_b (rg : registry) (order : list word) : bool :=
+  nodup_b order && forallb (registered rg) order &&
+  forallb (fun kv => existsb (N.eqb (Npos (fst kv))) order) (PM.elements rg).
+
+Lemma nget_elements {A} (w : word) (a : A) (m : nmap A) :
+  nget w m = Some a -> exists p, w = Npos p /\ In (p, a) (PM.elements m).
+Proof.
+  destruct w as [|p]; simpl; [discriminate|]. intros H. exists p. split; [reflexivity|].
+  apply PM.elements_correct. exact H.
+Qed.
+
+Lemma items_ok_b_sound h c : items_ok_b h c = true -> items_ok h c.
+Proof.
+  unfold items_ok_b, items_ok. rewrite forallb_forall. intros H p Hp.
+  specialize (H p Hp). destruct (nget p h); [discriminate|simpl in H; discriminate].
+Qed.
+
+Lemma wf_b_sound h rg tls : wf_b h rg tls = true -> wf h rg tls.
+Proof.
+  unfold wf_b. rewrite !andb_true_iff, !forallb_forall. intros [[H1 H2] H3]. constructor.
+  - intros p Hp. unfold registered in Hp. destruct (nget p rg) as [r|] eqn:E; [|discriminate].
+    destruct (nget_elements _ _ _ E) as (k & -> & Hin). specialize (H1 _ Hin). cbn [fst snd] in H1.
+    destruct (nget (Npos k) h); [discriminate|simpl in H1; discriminate].
+  - intros p c Hc. destruct (nget_elements _ _ _ Hc) as (k & -> & Hin).
+    apply items_ok_b_sound. apply (H2 _ Hin).
+  - intros e He. apply items_ok_b_sound. auto.
+Qed.
+
+Lemma rawdec_b_sound h rg rk : rawdec_b h rg rk = true ->
+  forall p c q, is_raw h rg p = true -> nget p h = Some c -> In q (item_ptrs c) ->
+                is_raw h rg q = true -> rk q < rk p.
+Proof.
+  unfold rawdec_b. rewrite forallb_forall. intros H p c q Hp Hc Hq Hqr.
+  destruct (nget_elements _ _ _ Hc) as (k & -> & Hin). specialize (H _ Hin). cbn [fst snd] in H.
+  rewrite Hp in H. cbn [negb orb] in H. rewrite forallb_forall in H. specialize (H q Hq).
+  rewrite Hqr in H. cbn [negb orb] in H. apply Nat.ltb_lt. exact H.
+Qed.
+
+Lemma range_b_sound rg minptr maxptr : range_b rg minptr maxptr = true -> range_ok rg minptr maxptr.
+Proof.
+  unfold range_b, range_ok. rewrite forallb_forall. intros H p Hp.
+  unfold registered in Hp. destruct (nget p rg) as [r|] eqn:E; [|discriminate].
+  destruct (nget_elements _ _ _ E) as (k & -> & Hin). specialize (H _ Hin). cbn [fst snd] in H.
+  rewrite !andb_true_iff in H. destruct H as [[H1 H2] H3].
+  apply N.eqb_eq in H1. apply N.leb_le in H2. apply N.leb_le in H3. auto.
+Qed.
+
+Lemma nodup_b_sound l : nodup_b l = true -> NoDup l.
+Proof.
+  induction l as [|a l IH]; simpl; intros H; constructor.
+  - apply andb_true_iff in H. destruct H as [H _]. rewrite negb_true_iff in H.
+    intros Hin. assert (existsb (N.eqb a) l = true); [|congruence].
+    apply existsb_exists. exists a. split; [exact Hin|apply N.eqb_refl].
+  - apply IH. apply andb_true_iff in H. tauto.
+Qed.
+
+Lemma order_b_sound rg order : order_b rg order = true -> order_ok rg order.
+Proof.
+  unfold order_b, order_ok. rewrite !andb_true_iff, !forallb_forall. intros [[H1 H2] H3].
+  split; [apply nodup_b_sound; exact H1|]. intros p. split; [apply H2|].
+  intros Hp. unfold registered in Hp. destruct (nget p rg) as [r|] eqn:E; [|discriminate].
+  destruct (nget_elements _ _ _ E) as (k & -> & Hin). specialize (H3 _ Hin). cbn [fst snd] in H3.
+  apply existsb_exists in H3. destruct H3 as (x & Hx & Hxe). apply N.eqb_eq in Hxe. subst. exact Hx.
+Qed.
+
+(* ------------------------------------------------------------------ non-vacuity: a 7-object heap
+   w8  Array [Ref->w16; Ref->w24]      w16 Ref -> w8 (cycle through the Array)
+   w24 Box -> w32 (the Box is shared: the Array and the Tuple w40 hold it)
+   w32 struct {0; w24}                 w40 heap Tuple (w24, raw w48)    w48 RAW struct {w16}
+   w56 Ref -> w8: unreachable.  TLS entry -> w40.  The stack holds w8. *)
+Definition w24 : word := 24%N. Definition w32 : word := 32%N. Definition w40 : word := 40%N.
+Definition w48 : word := 48%N. Definition w56 : word := 56%N.
+Definition ex_heap : heap :=
+  nset w8 (mk_contents KArray [w16; w24]) (nset w16 (mk_contents KRef [w8]) (nset w24 (mk_contents KBox [w32])
+  (nset w32 (mk_contents KStruct [0%N; w24]) (nset w40 (mk_contents KTuple [w24; w48])
+  (nset w48 (mk_contents KStruct [w16]) (nset w56 (mk_contents KRef [w8]) nempty)))))).
+Definition ex_reg : registry :=
+  nset w8 false (nset w16 false (nset w24 false (nset w32 false (nset w40 false (nset w56 false nempty))))).
+Definition ex_order : list word := [w56; w8; w40; w16; w32; w24].
+Definition ex_tls : list contents := mk_tls [w40].
+Definition ex_stack : list word := [3%N; w8; 1000%N].
+
+Lemma ex_range : range_ok ex_reg w8 w56.
+Proof. apply range_b_sound. vm_compute. reflexivity. Qed.
+Lemma ex_order_ok : order_ok ex_reg ex_order.
+Proof. apply order_b_sound. vm_compute. reflexivity. Qed.
+Lemma ex_wf : wf ex_heap ex_reg ex_tls.
+Proof. apply wf_b_sound. vm_compute. reflexivity. Qed.
+Lemma ex_raw_wf : raw_wf ex_heap ex_reg.
+Proof.
+  exists (fun _ => 0). split.
+  - intros p. lia.
+  - apply rawdec_b_sound. vm_compute. reflexivity.
+Qed.
+
+Lemma ex_collect :
+  exists rg', collect true true ex_heap ex_reg w8 w56 (fuel_of ex_heap ex_reg ex_order) ex_order ex_tls ex_stack
+              = Ok (rg', [w56]).
+Proof. eexists. vm_compute. reflexivity. Qed.
+
+Lemma ex_reach_all : forall p, In p [w8; w16; w24; w32; w40] -> reach ex_heap ex_reg ex_tls ex_stack p.
+Proof.
+  assert (R8 : reach ex_heap ex_reg ex_tls ex_stack w8) by (apply reach_stack; simpl; auto).
+  assert (R16 : reach ex_heap ex_reg ex_tls ex_stack w16).
+  { eapply reach_step with (p := w8); [exact R8|reflexivity|reflexivity|].
+    simpl. eapply pts_elem with (e := Words [w16]); [simpl; auto|apply pts_word; simpl; auto]. }
+  assert (R24 : reach ex_heap ex_reg ex_tls ex_stack w24).
+  { eapply reach_step with (p := w8); [exact R8|reflexivity|reflexivity|].
+    simpl. eapply pts_elem with (e := Words [w24]); [simpl; auto|apply pts_word; simpl; auto]. }
+  assert (R32 : reach ex_heap ex_reg ex_tls ex_stack w32).
+  { eapply reach_step with (p := w24); [exact R24|reflexivity|reflexivity|]. apply pts_word. simpl. auto. }
+  assert (R40 : reach ex_heap ex_reg ex_tls ex_stack w40).
+  { eapply reach_tls with (e := Words [w40]); [simpl; auto|apply pts_word; simpl; auto]. }
+  intros p Hp. simpl in Hp. intuition (subst; assumption).
+Qed.
